@@ -1116,18 +1116,17 @@ func (c1 complexConst) binaryOp(op ast.OperatorType, c2 constant) (constant, err
 		}
 		return eq, nil
 	case ast.OperatorAddition, ast.OperatorSubtraction:
-
-		re, _ := n1.r.binaryOp(op, n2.r)
-		im, _ := n1.i.binaryOp(op, n2.i)
+		re := complexPartOp(op, n1.r, n2.r)
+		im := complexPartOp(op, n1.i, n2.i)
 		return newComplexConst(re, im), nil
 	case ast.OperatorMultiplication:
-		ac, _ := n1.r.binaryOp(op, n2.r)
-		bd, _ := n1.i.binaryOp(op, n2.i)
-		bc, _ := n1.i.binaryOp(op, n2.r)
-		ad, _ := n1.r.binaryOp(op, n2.i)
+		ac := complexPartOp(op, n1.r, n2.r)
+		bd := complexPartOp(op, n1.i, n2.i)
+		bc := complexPartOp(op, n1.i, n2.r)
+		ad := complexPartOp(op, n1.r, n2.i)
 		c := complexConst{}
-		c.r, _ = ac.binaryOp(ast.OperatorSubtraction, bd)
-		c.i, _ = bc.binaryOp(ast.OperatorAddition, ad)
+		c.r = complexPartOp(ast.OperatorSubtraction, ac, bd)
+		c.i = complexPartOp(ast.OperatorAddition, bc, ad)
 		return c, nil
 
 	case ast.OperatorDivision:
@@ -1159,6 +1158,19 @@ func (c1 complexConst) binaryOp(op ast.OperatorType, c2 constant) (constant, err
 		return c, nil
 	}
 	return nil, errInvalidOperation
+}
+
+// complexPartOp executes the addition, subtraction or multiplication of two
+// parts of complex constants. The parts of a complex constant are not integer
+// constants, even when they are integer values, and are not subject to the
+// size limit of the integer constants: if the operation on integers
+// overflows, it is executed on rational numbers.
+func complexPartOp(op ast.OperatorType, a, b constant) constant {
+	c, err := a.binaryOp(op, b)
+	if err != nil {
+		c, _ = intToRatConst(a).binaryOp(op, intToRatConst(b))
+	}
+	return c
 }
 
 func (c1 complexConst) representedBy(typ reflect.Type) (constant, error) {
